@@ -26,8 +26,9 @@ Foreign == [txs |-> <<9>>, snd |-> 0, rcv |-> 1, type |-> 0]    \* never in a bo
 \* and an entry whose hash is the hash of no miniblock
 Mutations(e) ==
     {e,
-     [e EXCEPT !.snd = IF e.snd = 0 THEN 1 ELSE 0],
-     [e EXCEPT !.rcv = IF e.rcv = 1 THEN 2 ELSE 1],
+     \* the other shard id where they differ (field confusion is the realistic bug), else another value
+     [e EXCEPT !.snd = IF e.snd # e.rcv THEN e.rcv ELSE (e.snd + 1) % 3],
+     [e EXCEPT !.rcv = IF e.snd # e.rcv THEN e.snd ELSE (e.rcv + 1) % 3],
      [e EXCEPT !.type = IF e.type = 0 THEN 90 ELSE 0],
      [e EXCEPT !.cnt = IF e.cnt = 1 THEN 2 ELSE 1]}
 Entries == UNION {Mutations(EntryOf(mb)) : mb \in Mbs}
